@@ -563,6 +563,11 @@ func (q *BufferedChannelQueue[T]) loadFromPool() {
 		}
 
 		q.lock.Lock()
+		// Close() could have closed the channels while waiting for the lock
+		if q.isClosed.Get() {
+			q.lock.Unlock()
+			break
+		}
 
 		var val T
 		var pollErr, offerErr error
@@ -589,6 +594,13 @@ func (q *BufferedChannelQueue[T]) loadFromPool() {
 }
 
 func (q *BufferedChannelQueue[T]) notifyWorkers() {
+	// Close() closes loadWorkerCh under the write lock: never post a wake-up on a closed channel
+	q.lock.RLock()
+	defer q.lock.RUnlock()
+	if q.isClosed.Get() {
+		return
+	}
+
 	q.loadWorkerCh.Offer(1)
 	q.freeNodeWorkerCh.Offer(1)
 }
